@@ -6,12 +6,12 @@ import pyref
 FAMILY = "countmin"
 CORR = "CountMin"          # Coq module DS.Corr.CountMin
 FAMNUM = 1                 # number in ocaml/Extract.v
-ORACLES = {"prop_ok": 0, "prop_roundtrip": 1, "prop_layout": 2, "no_panic": 3}   # oracle name -> number in Corr/CountMin.v [oracles]
+ORACLES = {"prop_ok": 0, "prop_roundtrip": 1, "prop_layout": 2, "no_panic": 3, "prop_foreign": 4}   # oracle name -> number in Corr/CountMin.v [oracles]
 GEN_MODULES = [("GenCountMin", ["countmin/serialization.rs", "countmin/sketch.rs"],
                 ["PREAMBLE_LONGS_SHORT", "SERIAL_VERSION", "FLAGS_IS_EMPTY", "LONG_SIZE_BYTES", "MAX_TABLE_ENTRIES"])]
 TYPES = [(0, 255), (1, 65535), (2, 2**32 - 1), (3, 2**64 - 1), (4, 127), (5, 32767), (6, 2**31 - 1), (7, 2**63 - 1)]
 OPNAMES = {0: "new", 1: "update", 2: "estimate", 3: "serialize", 4: "merge", 5: "halve", 6: "decay",
-           7: "roundtrip", 8: "total", 9: "deserialize", 10: "fork"}
+           7: "roundtrip", 8: "total", 9: "deserialize", 10: "fork", 11: "bounds"}
 
 
 def row_seeds(seed, nh):
@@ -60,9 +60,12 @@ def gen_case(rng, cid, tier, focus=None):
                 w = 0
             totals[s] += w
             ops.append((1, [s, x, w] + bk[x]))
-        elif r < 0.70:
+        elif r < 0.66:
             x = rng.choice(dom)
             ops.append((2, [s, x] + bk[x]))
+        elif r < 0.70:
+            x = rng.choice(dom)
+            ops.append((11, [s, x] + bk[x]))
         elif r < 0.76:
             ops.append((3, [s]))
         elif r < 0.84 and nslots > 1:
@@ -198,10 +201,164 @@ def gen_bigalloc_case(rng, cid, tier):
     return Case(cid, [ty, 1, 3, seed, sh], ops, tag="cm-malformed-bigalloc")
 
 
+def foreign_image(rng, nh, nb, sh, total, cells, plain=False):
+    """the image a foreign (C++) writer emits for the abstract state; the unused fields (bytes 4..7, byte 15)
+    and the undefined flag bits hold arbitrary values unless [plain]"""
+    u32 = 0 if plain else rng.choice([0, 0, 1, 2**32 - 1, rng.getrandbits(32)])
+    u8 = 0 if plain else rng.choice([0, 0, 255, rng.randrange(256)])
+    hi = 0 if plain else rng.choice([0, 0, 2, 0x80, 0xfe, 2 * rng.randrange(128)])
+    flags = (1 if total == 0 else 0) + hi
+    img = [2, 1, 18, flags] + list(u32.to_bytes(4, "little")) + list(nb.to_bytes(4, "little")) + [nh] + list(sh.to_bytes(2, "little")) + [u8]
+    if total != 0:
+        img += list(total.to_bytes(8, "little")) + [b for c in cells for b in c.to_bytes(8, "little")]
+    return img
+
+
+def gen_foreign_case(rng, cid, tier):
+    """C13 focus: images built from random abstract states by the generator's own encoder (every variant of the
+    unused fields / undefined flag bits, empty and non-empty), fed to deserialize; the result is dumped
+    (total, estimates, bounds, re-serialization) and then updated, merged with a native sketch and forked"""
+    ty, mx = rng.choice(TYPES)
+    nh = rng.choice([1, 1, 2, 3, 5, 8]); nb = rng.choice([3, 3, 4, 7, 16, 64])
+    seed = rng.choice([9001, 9001, 0, 1, rng.getrandbits(64)])
+    if pyref.seed_hash(seed) == 0:
+        seed = 9001
+    sh = pyref.seed_hash(seed); seeds = row_seeds(seed, nh)
+    dom = list(dict.fromkeys(rng.randint(-30, 30) for _ in range(rng.choice([2, 5, 12]))))
+    bk = {x: buckets(x, seeds, nb) for x in dom}
+    cap = min(mx, 2**62)
+    ops = []
+    k = rng.random()
+    if k < 0.2:
+        total, cells = 0, [0] * (nh * nb)                          # the empty form
+    elif k < 0.6:
+        # the table a real stream would leave (every row sums to the total)
+        total, cells = 0, [0] * (nh * nb)
+        for _ in range(rng.choice([1, 3, 20])):
+            x = rng.choice(dom); w = rng.randint(1, max(1, min(cap // 64, 10**6)))
+            total += w
+            for r, b in enumerate(bk[x]):
+                cells[r * nb + b] += w
+    else:
+        # any table within the type's range (a foreign writer's state need not come from this hash function)
+        total = rng.choice([1, mx, cap // 2, rng.randint(1, cap)])
+        cells = [rng.choice([0, 1, total, rng.randint(0, total)]) for _ in range(nh * nb)]
+    ops.append((9, [0] + foreign_image(rng, nh, nb, sh, total, cells, plain=rng.random() < 0.2)))
+    ops += [(8, [0]), (3, [0])]
+    for x in dom[:6] + [777]:
+        b = bk.get(x) or buckets(x, seeds, nb)
+        ops.append((2, [0, x] + b)); ops.append((11, [0, x] + b))
+    # keep going with the decoded sketch: updates, a merge with a native sketch, a fork, decay
+    room = cap - total
+    ops.append((0, [1]))
+    nat = 0
+    for _ in range(rng.choice([0, 2, 6])):
+        x = rng.choice(dom); w = rng.randint(0, max(0, min(room // 8, 50)))
+        nat += w; ops.append((1, [1, x, w] + bk[x]))
+    room -= nat
+    for _ in range(rng.choice([0, 1, 4])):
+        x = rng.choice(dom); w = rng.randint(0, max(0, min(room // 8, 50)))
+        room -= w; ops.append((1, [0, x, w] + bk[x]))
+    if rng.random() < 0.7:
+        ops.append((4, [0, 1]))
+    else:
+        ops.append((4, [1, 0])); ops += [(8, [1]), (3, [1])]
+    ops += [(8, [0]), (3, [0]), (10, [0, 2]), (3, [2]), (8, [2])]
+    if ty < 4 and rng.random() < 0.5:
+        ops.append(rng.choice([(5, [0]), (6, [0, f64bits(rng.choice([0.5, 0.9, 1.0]))])])); ops.append((3, [0]))
+    for x in dom[:4]:
+        ops.append((2, [0, x] + bk[x])); ops.append((11, [2, x] + bk[x]))
+    # a second image over the same slot (re-initialises it)
+    if rng.random() < 0.4:
+        t2 = rng.randint(0, min(cap, 1000)); c2 = [rng.randint(0, t2) for _ in range(nh * nb)] if t2 else [0] * (nh * nb)
+        ops.append((9, [0] + foreign_image(rng, nh, nb, sh, t2, c2))); ops += [(8, [0]), (3, [0])]
+    return Case(cid, [ty, nh, nb, seed, sh], ops, tag="cm-foreign-ty%d" % ty)
+
+
+MIN_POS_F64 = 1          # bit pattern of the smallest positive subnormal
+
+
+def gen_extreme_case(rng, cid, tier):
+    """C17 focus: valid API sequences at the configuration extremes (1 x 3 tables, 255 rows, every counter type
+    filled to exactly T::MAX, merges summing to exactly T::MAX, decay by 1.0 and by the smallest positive
+    double, weight 0 updates); nothing here violates a documented precondition, so nothing may panic"""
+    ty, mx = rng.choice(TYPES)
+    k = rng.random()
+    if k < 0.55:
+        nh, nb = 1, 3
+    elif k < 0.7:
+        nh, nb = 255, 3
+    elif k < 0.8:
+        nh, nb = 1, rng.choice([2**10, 2**12])
+    else:
+        nh, nb = rng.choice([2, 4, 127]), rng.choice([3, 4, 5])
+    seed = rng.choice([9001, 0, 1, 2**64 - 1, rng.getrandbits(64)])
+    if pyref.seed_hash(seed) == 0:
+        seed = 9001
+    sh = pyref.seed_hash(seed); seeds = row_seeds(seed, nh)
+    dom = [0, 1, -1, 2**63 - 1, -2**63, rng.randint(-9, 9)][:rng.choice([1, 3, 6])]
+    dom = list(dict.fromkeys(dom))
+    bk = {x: buckets(x, seeds, nb) for x in dom}
+    unsigned = ty < 4
+    ops = [(0, [0]), (0, [1])]
+    tot = [0, 0]
+
+    def queries(s):
+        x = rng.choice(dom)
+        ops.extend([(2, [s, x] + bk[x]), (11, [s, x] + bk[x]), (8, [s])])
+
+    def upd(s, w):
+        x = rng.choice(dom); tot[s] += w; ops.append((1, [s, x, w] + bk[x]))
+
+    queries(0)                                   # bounds of an empty sketch
+    plan = rng.choice(["fill", "fill", "split", "steps"])
+    if plan == "fill":
+        upd(0, rng.choice([mx, mx, mx - 1, mx // 2 + 1]))          # one update up to T::MAX
+    elif plan == "split":
+        a = rng.randint(0, mx); upd(0, a); upd(1, mx - a)           # the merge below sums to exactly T::MAX
+    else:
+        left = mx
+        for _ in range(rng.choice([2, 5, 20])):
+            w = rng.choice([0, 1, left // 2, left, rng.randint(0, left)]); w = min(w, left); left -= w; upd(0, w)
+    queries(0)
+    if tot[0] + tot[1] <= mx:
+        ops.append((4, [0, 1])); tot[0] += tot[1]
+    queries(0)
+    ops += [(3, [0]), (7, [0]), (10, [0, 2]), (3, [2])]
+    for _ in range(rng.choice([2, 6, 15] if tier == "quick" else [6, 20, 60])):
+        r = rng.random()
+        if r < 0.3:
+            room = mx - tot[0]
+            upd(0, rng.choice([0, min(1, room), room, rng.randint(0, room)]))
+        elif r < 0.45 and unsigned:
+            ops.append((5, [0])); tot[0] //= 2
+        elif r < 0.6 and unsigned:
+            d = rng.choice([f64bits(1.0), MIN_POS_F64, f64bits(0.5), f64bits(1.0 - 2**-53), f64bits(rng.random() or 1.0)])
+            ops.append((6, [0, d]))
+            # (c as f64 * d).trunc() as T, recomputed here for the total (Python's int -> float is correctly rounded)
+            tot[0] = min(mx, int(float(tot[0]) * struct.unpack("<d", struct.pack("<Q", d))[0]))
+        elif r < 0.7:
+            ops.append((7, [0]))
+        elif r < 0.8:
+            ops.append((0, [1])); tot[1] = 0; upd(1, rng.choice([0, 1, 3]))
+            if tot[0] + tot[1] <= mx:
+                ops.append((4, [0, 1])); tot[0] += tot[1]
+        else:
+            queries(0)
+    queries(0); ops += [(3, [0]), (10, [0, 3]), (3, [3])]
+    for x in dom:
+        ops.append((11, [3, x] + bk[x]))
+    return Case(cid, [ty, nh, nb, seed, sh], ops, tag="cm-extreme-ty%d" % ty)
+
+
 def gen(rng, tier, n=None, focus=None):
     n = n or (120 if tier == "quick" else 1200)
     if focus == "codec":
         return [gen_codec_case(rng, i, tier) for i in range(n)]
+    if focus == "foreign":
+        return [gen_foreign_case(rng, i, tier) for i in range(n)]
+    if focus == "extremes":
+        return [gen_extreme_case(rng, i, tier) for i in range(n)]
     if focus == "malformed":
         return [gen_malformed_case(rng, i, tier) for i in range(n)] + [gen_bigalloc_case(rng, n + i, tier) for i in range(6)]
     return [gen_case(rng, i, tier, focus) for i in range(n)]
@@ -215,6 +372,10 @@ def nontrivial(case, obs):
         return True
     if any(c == 10 for (c, a) in case.ops) and items:
         return True
+    if case.tag.startswith("cm-foreign"):
+        return [1] in [o for (c, a), o in zip(case.ops, obs or []) if c == 9] and any(c == 3 for (c, a) in case.ops)
+    if case.tag.startswith("cm-extreme"):
+        return any(c == 11 for (c, a) in case.ops) and any(c == 1 and a[2] > 0 for (c, a) in case.ops)
     res = [o for (c, a), o in zip(case.ops, obs or []) if c == 9]
     return len(res) >= 3 and [1] in res and [-998] in res
 
